@@ -98,6 +98,10 @@ def rule_special_cases(repo: Repo, rep: Report) -> int:
             lint_value_keyed(rep, fi, rule="SPECIAL-CASE", allowed_literals={0, 1, -1, 2}, extra_sources=extra)
             n += 1
             n += batch_index_taint(rep, fi)
+            # a search carried out slab by slab must offset the slab-local position of its minimum
+            from ..speciallint import lint_chunk_local_index
+
+            n += lint_chunk_local_index(rep, fi, "SPECIAL-CASE")
     return n
 
 
